@@ -113,7 +113,9 @@ class OptimizationHistory:
         OptimizationHistory
             ``OptimizationHistory`` read from file.
         """
-        return cls(pd.read_csv(path), source_path=Path(path).as_posix())
+        return cls(
+            pd.read_csv(path, float_precision="round_trip"), source_path=Path(path).as_posix()
+        )
 
     loader = from_csv
 
